@@ -813,8 +813,8 @@ int main(int argc, char** argv)
     rep.assume("Lorentz force in a uniform field gives the helix used as reference (SI-2019 exact constants).");
     rep.assume(
         "Integration error model: per accepted integration step the true local error is <= K x the driver's "
-        "accepted estimate (epsilon_rel_max): K = 1 for RK4 (step-doubling estimate of a Richardson-corrected "
-        "result), K = 1.6 max(1,(eps/1e-4)^0.6) for Dormand-Prince (from the published DOPRI5 amplification "
+        "accepted estimate (epsilon_rel_max): K = 1.25 for RK4 (step-doubling estimate of a Richardson-corrected "
+        "result), K = 2.0 max(1,(eps/1e-4)^0.6) for Dormand-Prince (from the published DOPRI5 amplification "
         "polynomial on circular motion; measured <= 8.5 at eps 4.3e-3), exact for ZHelix; accumulated over an "
         "advance with n stepper calls: |p| n K eps, direction n K eps (1+turn angle), position K eps h (1+n)(1+turn "
         "angle). Declared untestable (accuracy oracles only): Dormand-Prince with epsilon_rel_max > 1.5e-3 (estimate "
